@@ -11,7 +11,7 @@ OPTS = {'quick': {'selfcheck_mod': 100, 'budget_s': 240}, 'thorough': {'selfchec
 BOUNDS = {
     'quick': 'unordered pairs {A,B} of the C06 quick universe (size(A)+size(B) <= 3, depth <= 1), each unified in both orders under the same '
              'substitution (empty, or one of 12 real prior unifications for leaf pairs); head/goal family: fact t(A) fetched with get_rule vs '
-             'query t(B) built with make_query, A,B of size <= 2 over {a, symbolic int, $X, $Y, $_, [], [..], [..|$T]}, both orders',
+             'query t(B) built with make_query, A,B of total size <= 3 (<= 4 when both are lists) over {a, symbolic int, $X, $Y, $_, [], [..], [..|$T]}, both orders',
     'thorough': 'unordered pairs with size(A)+size(B) <= 5 (depth 1), <= 3 (depth 2); priors as in C06 thorough; head/goal family with sizes <= 3',
 }
 OUTSIDE = c06.OUTSIDE
@@ -54,7 +54,7 @@ def cases(tier, seed):
     ts = U.terms(HG_LEAVES, HG_TAILS, mx, 1, styles=('p',))
     for a in ts:
         for b in ts:
-            if U.size(a) + U.size(b) > mx + 1: continue
+            if U.size(a) + U.size(b) > mx + 1 and not (a[0] == 'l' and b[0] == 'l' and U.size(a) + U.size(b) <= mx + 2): continue
             out.append({'id': 'hg %s / %s|%d' % (hg_text(a), hg_text(b), len(out)), 'fam': 'hg', 'A': a, 'B': b})
     return out
 
